@@ -353,6 +353,43 @@ def gen_wide(rng, cid):
     return Case(cid, A + ["phase B"], tags=("wide-slice",))
 
 
+def gen_adaptive(rng, cid):
+    """memory-adaptive flow rules (x throttling: the queue is state; x reject on an own statistic) under a `mem` reading
+    below / between / above the water marks; the reload leaves the rule unchanged (something else changes), or modifies
+    exactly one adaptive field"""
+    g = G(rng)
+    now = T0 + rng.randint(0, 10 ** 6)
+    cb = rng.choice([1, 1, 0])
+    a = [g.rid(), 1, 2, cb, 0, 0, 0, rng.choice([100, 500, 2000]) if cb else 0, 0, 0, rng.choice([0, 1000]) if cb else rng.choice([0, 3000]),
+         rng.choice([5, 10]), rng.choice([1, 2, 3]), rng.choice([1000, 2000]), rng.choice([3000, 4000])]
+    extra = [g.mk("flow", 2)]
+    MEM = [500, 1000, 1500, 2500, 3000, 3500, 5000]
+    A = [f"t {now}", f"mem {rng.choice(MEM)}", f"flow.load {enc([a] + extra)}"]
+    def traffic(k):
+        nonlocal now
+        for _ in range(k):
+            if rng.random() < 0.35:
+                now += rng.choice([1, 50, 100, 200, 500, 1000])
+                A.append(f"t {now}")
+            if rng.random() < 0.1:
+                A.append(f"mem {rng.choice(MEM)}")
+            A.append("e 1 0")
+    traffic(rng.randint(2, 8))
+    for _ in range(rng.choice([1, 1, 2])):
+        b = list(a)
+        kind = rng.choice(["same", "same", "field"])
+        if kind == "field":
+            f = rng.choice([11, 12, 13, 14])
+            b[f] = rng.choice([v for v in {11: [5, 10, 100], 12: [1, 2, 3], 13: [1000, 2000], 14: [3000, 4000]}[f] if v != b[f]])
+        ex2 = [list(extra[0])]
+        ex2[0][4] += 1
+        new = rng.choice([[b] + ex2, ex2 + [b], [b, g.mk("flow", 1, inert=True)] + extra, [g.mk("flow", 3), b] + extra])
+        A.append(f"flow.reload {enc(new)}" if rng.random() < 0.6 else f"flow.reloadres 1 {enc([r for r in new if r[1] == 1] + ([g.mk('flow', 1, inert=True)] if len([r for r in new if r[1] == 1]) == 1 else []))}")
+        a, extra = b, [r for r in new if r[1] == 2][:1] or extra
+        traffic(rng.randint(2, 8))
+    return Case(cid, A + ["phase B"], tags=("adaptive-slice",))
+
+
 def gen_conc(rng, cid):
     """hotspot concurrency rule with calls in flight across a reload that leaves the rule unchanged (nil items: stat-reuse
     path), modifies a field its decisions never look at (BurstCount / MaxQueueingTimeMs), or modifies the threshold"""
@@ -400,6 +437,8 @@ def gen(ctx, n):
             out.append(gen_conc(ctx.rng, f"c{ctx.seed}-{i}"))
         elif i % 50 == 11:
             out.append(gen_order(ctx.rng, f"o{ctx.seed}-{i}"))
+        elif i % 50 == 44:
+            out.append(gen_adaptive(ctx.rng, f"a{ctx.seed}-{i}"))
         elif i % 50 == 36:
             out.append(gen_wide(ctx.rng, f"n{ctx.seed}-{i}"))
         elif i % 25 == 7:
